@@ -51,7 +51,7 @@ Hi(b) == b[Len(b)].h
 (* The insert rules as functions of a store state S = [hdr, sampled, pruned, meta], so that they can be applied  *)
 (* to the current state (the actions below) and composed (concurrent inserts must be explained by SOME sequential *)
 (* order: Trace_Store's "par" events).                                                                             *)
-StateRec == [hdr |-> hdr, sampled |-> sampled, pruned |-> pruned, meta |-> meta]
+CurStoreState == [hdr |-> hdr, sampled |-> sampled, pruned |-> pruned, meta |-> meta]
 StoredIn(S) == DOMAIN S.hdr
 TagsIn(S)   == {S.hdr[h].tag : h \in StoredIn(S)}
 
@@ -83,15 +83,15 @@ InsertIn(S, b) ==
           pruned  |-> S.pruned \ rng,
           meta    |-> S.meta]
 
-NeighborsBad(b) == NeighborsBadIn(StateRec, b)
-DupTag(b)       == DupTagIn(StateRec, b)
-FailKinds(b)    == FailKindsIn(StateRec, b)
-FirstKind(b)    == FirstKindIn(StateRec, b)
+NeighborsBad(b) == NeighborsBadIn(CurStoreState, b)
+DupTag(b)       == DupTagIn(CurStoreState, b)
+FailKinds(b)    == FailKindsIn(CurStoreState, b)
+FirstKind(b)    == FirstKindIn(CurStoreState, b)
 
 Insert(b) ==
     IF b = <<>> THEN res' = ROk /\ UNCHANGED svars
     ELSE IF FirstKind(b) # ROk THEN Fail(FirstKind(b))
-    ELSE LET S2 == InsertIn(StateRec, b) IN
+    ELSE LET S2 == InsertIn(CurStoreState, b) IN
          /\ hdr' = S2.hdr /\ sampled' = S2.sampled /\ pruned' = S2.pruned /\ meta' = S2.meta
          /\ res' = ROk
 
